@@ -28,7 +28,7 @@ ASSUMPTIONS = [
     "'immediately' = the two status requests are among the frames the console receives within 50 ms (+ link latency) of the new connection",
     "poll deadlines within 0.1 s of a group status arrival or of a connection change are not judged",
 ]
-PROBES = ["c14.handler_write_error", "c14.foreign_records_in_refresh", "c14.poll_in_second_session", "c14.poll_deadline_with_full_buffer", "c14.reconnection_dead_on_arrival", "c14.poll_deadline_in_outage", "c14.silence_after_outage", "c14.poll_write_error", "c14.fin", "c14.rst", "c14.blackhole", "c14.reboot", "c14.write_error", "c14.state_changed_while_down", "c14.unchanged_refresh",
+PROBES = ["c14.initialised_after_init_gave_up", "c14.handler_write_error", "c14.foreign_records_in_refresh", "c14.poll_in_second_session", "c14.poll_deadline_with_full_buffer", "c14.reconnection_dead_on_arrival", "c14.poll_deadline_in_outage", "c14.silence_after_outage", "c14.poll_write_error", "c14.fin", "c14.rst", "c14.blackhole", "c14.reboot", "c14.write_error", "c14.state_changed_while_down", "c14.unchanged_refresh",
           "c14.outage_beyond_heartbeat", "c14.second_outage", "c14.poll_after_outage", "c14.poll_fired", "c14.poll_repeated", "c14.poll_pushed_back"]
 
 
@@ -147,8 +147,19 @@ def gen_poll(rng) -> dict:
         # belongs to every session
         tl += [{"at": 2.0, "op": "user.shutdown"}, {"at": 3.0, "op": "user.init", "reinit": True}]
     mode = rng.choice(["silent", "silent", "answers", "chatty", "mixed"])
+    late = (not reinit) and rng.random() < 0.15
+    if late:
+        # the handshake is completed only after init() has given up (5 s): refused first attempts or a slow connection, and
+        # a console that takes its time over each answer; the client is initialised all the same and the silence poll is owed
+        d = rng.choice([0.25, 0.375, 0.5])
+        if rng.random() < 0.5:
+            knobs["fates"] = [{"kind": rng.choice(["refuse", "unreachable"]), "latency": 0.0}] * 2 + [{"kind": "accept", "latency": 0.0}]
+        else:
+            knobs["fates"] = [{"kind": "accept", "latency": rng.choice([4.0, 4.5, 4.9375])}]
+        tl.append({"at": 0.0, "op": "console.delay", "delay": d})
+        tl.append({"at": 11.0, "op": "console.delay", "delay": 0.0})
     if mode in ("silent", "mixed"):
-        tl.append({"at": 6.0, "op": "console.mute", "kinds": ["group_status_request"]})
+        tl.append({"at": 12.0 if late else 6.0, "op": "console.mute", "kinds": ["group_status_request"]})
     if mode == "mixed":
         tl.append({"at": G.dyadic(rng, 400.0, 1000.0), "op": "console.mute", "kinds": []})
     zones = [z["zone"] for z in inst["zones"]]
@@ -158,7 +169,7 @@ def gen_poll(rng) -> dict:
         t += gap
         if t < 1450.0:
             tl.append({"at": t, "op": "console.publish", "what": "zone", "ids": [rng.choice(zones)] if rng.random() < 0.5 else None})
-    info = {"mode": mode, "reinit": reinit}
+    info = {"mode": mode, "reinit": reinit, "late_init": late}
     if mode == "silent" and rng.random() < 0.35:
         # an outage the client knows about (FIN, refused reconnects) that contains a poll deadline, and a console that does not
         # answer the refresh's group status request afterwards either: the silence goes on, so must the polling
@@ -289,12 +300,22 @@ def execute_poll(sc: dict) -> dict:
     probes = {}
     inits = [c for c in w.calls if c["op"] == "user.init"]
     init = inits[-1] if inits else None
-    if init is None or init["result"] is not True or any(c["result"] is not True for c in inits):
+    lat = sc["knobs"].get("latency", 0.0)
+    late = bool(sc["info"].get("late_init"))
+    if late and init is not None and init["result"] is False:
+        # init() gave up, the handshake went on and was completed: the client counts as initialised from the arrival of the
+        # handshake's last answer (the first group status), and the silence poll runs from there
+        firsts = sorted(x["t"] + lat for x in w.console.tx if x["kind"] == "group_status")
+        if not firsts or firsts[0] < init["t_ret"]:
+            return common.result(w, V, nontrivial=False)
+        probes["c14.initialised_after_init_gave_up"] = 1
+        t_i = firsts[0]
+    elif init is None or init["result"] is not True or any(c["result"] is not True for c in inits):
         return common.result(w, V, nontrivial=False)
+    else:
+        t_i = init["t_ret"]
     if len(inits) > 1:
         probes["c14.poll_in_second_session"] = 1
-    lat = sc["knobs"].get("latency", 0.0)
-    t_i = init["t_ret"]
     arrivals = sorted(x["t"] + lat for x in w.console.tx if x["kind"] == "group_status" and x["t"] + lat > t_i)
     ups = [l.t_accept for l in w.net.links if l.t_accept is not None][1:]
     if len(inits) > 1:
